@@ -170,6 +170,96 @@ def _pipelining(ctx, h):
         ctx.check(ok, "pipeline/non-persistent-closes", f"{q} | {label}",
                   f"{label} request followed by pipelined requests: handed {o.value[0] if o.kind == 'ok' else o.exc_name!r}, closed={o.value[1] if o.kind == 'ok' else '?'}; "
                   "expected only the first request and a closed connection")
+    # (4b) every schedule of deliver / pause / resume / finish: requests reach the application in arrival order, one at a time, responses in order
+    import itertools
+    reqs = [_req(b"/r%d" % i) for i in (1, 2, 3)]
+    maxlen = 5 if ctx.tier == "quick" else 7
+    bad = None
+    n_sched = 0
+    for length in range(2, maxlen + 1):
+        for sched in itertools.product("DPRF", repeat=length):
+            # prune schedules that are not meaningful: at most 3 deliveries, pause/resume alternate, the schedule starts with a delivery
+            if sched[0] != "D" or sched.count("D") > 3 or sched.count("D") < 2 or "F" not in sched:
+                continue
+            paused, okp = False, True
+            for op in sched:
+                if op == "P":
+                    okp, paused = okp and not paused, True
+                elif op == "R":
+                    okp, paused = okp and paused, False
+            if not okp or (ctx.tier == "quick" and sched.count("P") + sched.count("R") == 0 and length > 4):
+                continue
+            n_sched += 1
+
+            def scen(h, sched=sched):
+                ch = h.channel()
+                sent = finished = 0
+                inflight_max = 0
+                for op in sched:
+                    if op == "D":
+                        h.feed(ch, reqs[sent])
+                        sent += 1
+                    elif op == "P":
+                        h.call(ch, "pauseProducing")
+                    elif op == "R":
+                        h.call(ch, "resumeProducing")
+                    elif op == "F" and finished < len(h.handed):
+                        _answer(h, h.handed[finished], [b"resp " + request_info(h, h.handed[finished])["uri"]])
+                        finished += 1
+                    inflight_max = max(inflight_max, len(h.handed) - finished)
+                # drain: resume and answer everything that is still handed over
+                if sched.count("P") > sched.count("R"):
+                    h.call(ch, "resumeProducing")
+                while finished < len(h.handed):
+                    _answer(h, h.handed[finished], [b"resp " + request_info(h, h.handed[finished])["uri"]])
+                    finished += 1
+                return [i["uri"] for i in h.seen], inflight_max, sent, h.wire(), h.transport.attrs["disconnecting"]
+            o = h.run(scen)
+            ok = o.kind == "ok"
+            if ok:
+                uris, inflight, sent, wire, closed = o.value
+                want = [b"/r%d" % i for i in range(1, sent + 1)]
+                ok = uris == want and inflight <= 1 and not closed
+                if ok:
+                    try:
+                        ok = [r["body"] for r in parse_responses(wire, [b"GET"] * sent, closed)] == [b"resp " + u for u in want]
+                    except WireError:
+                        ok = False
+            if not ok:
+                bad = ("".join(sched), o.value if o.kind == "ok" else (o.kind, o.exc_name))
+                break
+        if bad:
+            break
+    ctx.check(bad is None, "pipeline/schedules-keep-arrival-order", q + " | deliver / pause / resume / finish schedules",
+              (f"schedule {bad[0]} (D = deliver the next request, P/R = transport pauses / resumes the channel, F = the application finishes the oldest request): handed-over URIs, max in flight, "
+               f"sent, wire, closed = {bad[1]!r}; requests must reach the application in arrival order, one at a time, and be answered in that order (bytes held back in the pipelining "
+               "buffer must not be overtaken by later input)") if bad else "",
+              detail=f"{n_sched} schedules up to length {maxlen}")
+    # (4c) responses that cannot have a body do not leave stray bytes between pipelined responses
+    def scen(h):
+        codes = {b"/1": 204, b"/2": 304, b"/3": 200}
+
+        def process(mm, req):
+            uri = request_info(h, req)["uri"]
+            h.call(req, "setResponseCode", codes[uri])
+            if codes[uri] == 200:
+                h.call(req, "write", b"body")
+            h.call(req, "finish")
+        ch = h.channel(process=process)
+        h.feed(ch, _req(b"/1") + _req(b"/2") + _req(b"/3"))
+        return h.wire(), h.transport.attrs["disconnecting"]
+    o = h.run(scen)
+    ok = o.kind == "ok"
+    detail = ""
+    if ok:
+        try:
+            rs = parse_responses(o.value[0], [b"GET"] * 3, o.value[1])
+            ok = [(r["code"], r["body"]) for r in rs] == [(204, b""), (304, b""), (200, b"body")]
+        except WireError as e:
+            ok, detail = False, str(e)
+    ctx.check(ok, "pipeline/bodyless-responses-leave-no-stray-bytes", q + " | 204, 304, 200 pipelined",
+              f"three pipelined responses 204 / 304 / 200 give {o.value[0][:200] if o.kind == 'ok' else o.exc_name!r} {detail}; a 204 / 304 carries neither a body nor a chunked terminator, "
+              "otherwise stray bytes sit between it and the next response")
     # (5) wake-up of the paused network producer
     def scen(h):
         ch = h.channel()
@@ -421,6 +511,10 @@ def check(ctx):
 
 
 MUTANTS = [
+    Mutant("replay-postponed-while-transport-paused", HTTP, "            data = b\"\".join(self._dataBuffer)\n            self._dataBuffer = []\n            self.setLineMode(data)",
+           "            if self._waitingForTransport:\n                self.setLineMode()\n            else:\n                data = b\"\".join(self._dataBuffer)\n                self._dataBuffer = []\n                self.setLineMode(data)",
+           more=[(HTTP, "        if not self._handlingRequest:\n            self._networkProducer.resumeProducing()\n\n    def _send100Continue", "        if not self._handlingRequest:\n            self._networkProducer.resumeProducing()\n            if self._dataBuffer:\n                held, self._dataBuffer = b\"\".join(self._dataBuffer), []\n                self.setLineMode(held)\n\n    def _send100Continue")]),
+    Mutant("chunked-framing-for-204-and-304", HTTP, "                and self.method != b\"HEAD\"\n                and self.code not in NO_BODY_CODES", "                and self.method != b\"HEAD\""),
     Mutant("notifications-detached-before-firing", HTTP, "        for d in self.notifications:\n            d.callback(None)\n        self.notifications = []", "        pending = self.notifications\n        self.notifications = []\n        for d in pending:\n            d.callback(None)"),
     Mutant("notifications-detached-before-firing-in-shared-helper", HTTP, "        for d in self.notifications:\n            d.callback(None)\n        self.notifications = []",
            "        self._settle(lambda d: d.callback(None))",
